@@ -1,9 +1,10 @@
 #!/bin/sh
-# confirm_round.sh <suffix> <id>...   confirms the finished sub-agent worktrees /tmp/wt/<id>_<suffix> (at most two at a time, flock),
+# confirm_round.sh <suffix> <id>...   confirms the finished sub-agent worktrees /tmp/wt/<id>_<suffix> (three lanes, flock),
 # stores the change under seeded/<id>_<suffix> and removes the agent's worktree (log: /tmp/wt/confirm_<id>_<suffix>.log)
 sfx="$1"; shift
 for id in "$@"; do
   n="${id}_${sfx}"
+  lane=$(( $(echo "$n" | cksum | cut -d" " -f1) % 3 ))
   (
     flock 9
     python3 /verif/tools/confirm_seeded.py "$id" "/tmp/wt/$n" "$n" > "/tmp/wt/confirm_$n.log" 2>&1
@@ -11,5 +12,5 @@ for id in "$@"; do
       git -C /repo worktree remove --force "/tmp/wt/$n"
     fi
     echo "$n: $(tail -2 /tmp/wt/confirm_$n.log | tr '\n' ' ')" >> /tmp/wt/CONFIRMED.log
-  ) 9>/tmp/wt/confirm.lock
+  ) 9>/tmp/wt/confirm.lock.$lane
 done
